@@ -104,5 +104,5 @@ def run(case, ctx):
 
 def parts(tier):
     mx = 30 if tier == "quick" else 60
-    return [Part("histories", run, strategy=lambda t: W.program(min_steps=6, max_steps=mx), examples=(4000, 48000), shards=(16, 16),
+    return [Part("histories", run, strategy=lambda t: W.program(min_steps=6, max_steps=mx, extra_ops=["vec_tuple"] * 5 + ["set_int", "set_slice", "attr_assign"]), examples=(4000, 48000), shards=(16, 16),
                  floors={"programs_with_related_write": 0.1})]
